@@ -27,7 +27,7 @@ META = {
             'CVODES/IDAS/collocation is proven to be the time-rescaled declared model for all values',
     'functions': ['rockit/sampling_method.py:discrete_system/intg_rk/intg_expl_euler/intg_builtin', 'rockit/direct_collocation.py:add_constraints (C, D, B tables, quadrature)', 'rockit/ocp.py:sys_simulator',
                   'rockit/direct_method.py:fill_placeholders_integral', 'rockit/stage.py:_ode'],
-    'bounds': 'taylor: nx<=2, fields of degree<=3 in x with explicit time, one control, one parameter; colloc: degree 1..5 both schemes (tables), Pade for radau 1-2 and legendre 1; dae: ODE and semi-explicit DAE models',
+    'bounds': 'taylor: nx<=2 (and one 2x2 matrix state), fields of degree<=3 in x with explicit time, one control, one parameter; colloc: degree 1..5 both schemes (tables), Pade for radau 1-2 and legendre 1; dae: ODE and semi-explicit DAE models',
     'outside': 'that CVODES/IDAS/collocation integrators meet their tolerance (compiled floating-point numerics: not encodable); measured convergence rates over M; Butcher / collocation super-convergence theorems '
                'turning order conditions into convergence are trusted mathematics; M>1 is the M-fold composition with step T/M (proven in C01)',
     'assumptions': ['casadi.integrator is replaced by a recording stub (the DAE description is captured, nothing is integrated)', 'reals for floats'],
@@ -40,6 +40,8 @@ def fields():
     out.append(Spec(nx=1, nu=1, ode=[X(0) * X(0) * Pg('a') + t * U(0) + X(0) * t], params=[Sym('a', value=1)], note='scalar quadratic, time dependent'))
     out.append(Spec(nx=2, nu=1, ode=[X(1) * t + U(0), X(0) * X(1) - Pg('a') * t * t + X(0)], params=[Sym('a', value=1)], note='2d bilinear, time dependent'))
     out.append(Spec(nx=2, nu=1, ode=[X(1), E('pow', X(0), 3) * Pg('a') + U(0) * t], params=[Sym('a', value=1)], note='cubic oscillator with forcing'))
+    # a square matrix-valued state (elements column-major) with a non-symmetric right-hand side
+    out.append(Spec(nx=4, nu=1, xshape=[(2, 2)], ode=[X(1) * t + U(0), X(0) * X(2), X(3) - Pg('a') * t, X(0) + X(1) * X(1)], params=[Sym('a', value=1)], note='2x2 matrix state, non-symmetric'))
     return out
 
 
